@@ -173,6 +173,15 @@ CLAIMED = {
             "selected by the same predicate (alignment), infinities become +-2 x the largest finite magnitude among "
             "the kept rows, no NaN/inf remains, every ordinary entry is untouched, columns follow the sorted names. "
             "np.savetxt/loadtxt, compute_sample_weight and the export are exercised bounded.", "3 C15"),
+    "C16": ("other", "contract-based deductive verification: write-set / frame / refusal postconditions and a crash "
+            "invariant (exception injected at every write point, symbolically) for the real save_hdf5 on a finite-map "
+            "model of the HDF5 container, reader/writer key correspondence for the real load_hdf5, string lemmas for "
+            "the text codecs; bounded runs with real h5py incl. native failure injection",
+            "For every container state: a new entry gets exactly the six datasets and one attribute per fit property, "
+            "the same curve again updates only the user fields, a different fit (beyond a relative tolerance) is "
+            "refused without a single write, no other entry or dataset is touched, and after a failure at ANY write "
+            "point every entry is either complete or lacks 'fit' (which the loader skips); the loader reads every "
+            "complete entry without error. h5py/json/lmfit serialisation are assumed and exercised bounded.", "3 C16"),
 }
 
 NOT_APPLICABLE = {
